@@ -16,4 +16,8 @@ C07_ObservedFits ==
   /\ Rec[i].total <= Limit
   /\ Rec[i].total = Header + Rec[i].d + Rec[i].delta
   /\ Rec[i].delta <= Limit - Header - Rec[i].d
+\* running out of space only cuts the tail: what is carried is a PREFIX of the sender's stale entries
+C07_ObservedTail ==
+  /\ Len(Rec[i].carried) <= Len(Rec[i].sender)
+  /\ \A j \in 1..Len(Rec[i].carried) : Rec[i].carried[j] = Rec[i].sender[j]
 ==================================================================================
